@@ -879,7 +879,7 @@ def lazy_index(prog):
     return idx
 
 
-@model('Box::new', 'Rc::new', 'Arc::new', 'Box::pin', 'Box::from')
+@model('Box::new', 'Rc::new', 'Arc::new', 'Box::pin', 'Box::from', '<Box as From>::from')
 def m_box_new(ex, site, a):
     hook = ex.side.get('alloc_hook')
     c = Cell(a[0])
